@@ -229,6 +229,7 @@ func c11RunStress(t *testing.T, in *c11Input) c11Impl {
 		procs = 4
 	}
 	cmd := exec.Command(os.Args[0], "-test.run", "^TestC11Child$", "-test.timeout", "100s")
+	coverChild(cmd)
 	cmd.Env = append(os.Environ(), "VERIF_C11_CHILD="+inPath, "VERIF_C11_RESULT="+outPath, fmt.Sprintf("GOMAXPROCS=%d", procs), "VERIF_OUT=", "VERIF_DIST=")
 	var buf bytes.Buffer
 	cmd.Stdout, cmd.Stderr = &buf, &buf
